@@ -28,7 +28,7 @@ pub fn def() -> CheckDef {
         runs_quick: 150_000,
         runs_thorough: 3_000_000,
         rule: "seeded histories on cfb_mode/cfb8 Encryptor/Decryptor and OfbCore (as block encryptor, decryptor, keystream core), on the AsyncStreamCipher one-shots with a partial tail, on BufEncryptor/BufDecryptor with arbitrary chunking and state export/import, and on the Ofb byte stream; harness cipher with both directions or encrypt-only (block sizes 1,2,3,8,16,17,255; width per call from {1,2,3,5,8}) or AES-128/Magma/BelT; compared step by step with the reference recurrences; seam trace must contain no decrypt-direction block. distinct = distinct (mode, front end, block size, cipher, policy, op-kind/form/size-class sequence); non-trivial = processed >= 1 byte",
-        required_probes: &["par_groups_then_tail", "bs1", "bs255", "enc_only_cipher", "async_partial_tail", "buf_mid_block_piece", "buf_restart_mid_block", "ofb_stream_partial", "cfb8_bs_not_16", "script_call"],
+        required_probes: &["par_groups_then_tail", "bs1", "bs255", "enc_only_cipher", "async_partial_tail", "buf_mid_block_piece", "buf_long_call", "buf_restart_mid_block", "ofb_stream_partial", "cfb8_bs_not_16", "script_call"],
         r#gen,
         exec,
         components: "real code: cfb-mode, cfb8, ofb crates, cipher's BlockMode*/AsyncStreamCipher/StreamCipherCoreWrapper front ends; stub: block cipher (SimCipher / SimCipherEnc) in most runs, real AES-128/Magma/BelT in the rest; oracle: reference recurrences in sim/src/model.rs plus the recorded seam trace",
@@ -69,6 +69,12 @@ fn r#gen(rng: &mut Rng, thorough: bool) -> Scn {
             match rng.below(10) {
                 0 => s.ops.push(Op::new("restart")),
                 1 => s.ops.push(Op::new("clone")),
+                2 => {
+                    // one long call: many full blocks inside a single encrypt()/decrypt()
+                    let bs = s.bs as u64;
+                    let nb = 8 + rng.below(if bs > 200 { 6 } else { 20 });
+                    s.ops.push(Op::new("bytes").n(nb * bs + rng.below(bs)));
+                }
                 _ => s.ops.push(Op::new("bytes").n(rng.nbytes(6 * s.bs as u64, s.bs as u64))),
             }
         }
@@ -147,6 +153,7 @@ fn exec(scn: &Scn, ctx: &mut Ctx) -> Verdict {
                         let n = op.n as usize;
                         ctx.sig.u(((done % bs) as u64) << 16 | ((n % bs) as u64) << 4 | (n / bs).min(3) as u64);
                         ctx.probe_if(done % bs != 0 && n > 0, "buf_mid_block_piece");
+                        ctx.probe_if(n >= 9 * bs, "buf_long_call");
                         ctx.probe_if(done % bs != 0 && (done + n) % bs == 0 && n > 0, "buf_piece_ends_on_boundary");
                         let mut buf = input[done..done + n].to_vec();
                         let mark = env_mark();
